@@ -382,12 +382,26 @@ def c08(o, v, facts=None):
             before.setdefault((tid, d), booked[k])
             booked[k] += F(u)
             after[(tid, d)] = booked[k]
+        prefixes = collections.defaultdict(lambda: [F(0)])
+        run_ = collections.defaultdict(F)
+        for rn, d, tid, u in o.rows:
+            run_[(rn, d)] += F(u)
+            prefixes[(rn, d)].append(run_[(rn, d)])
         for i in m.order:
             t = m.t[i]
             if not m.is_leaf(i) or t['milestone'] or t['start'] is not None or t['end'] is not None:
                 continue
             rws = o.rows_by_task.get(i, [])
             if not rws:
+                # no work: "its start day" plays the part of the work day; when the task was placed is not
+                # observable, so any prefix sum of that day's rows is accepted as "booked before the task"
+                T = o.T[i]
+                d0 = day(T['start'])
+                c0 = cap(o, t['resource'], d0)
+                ok = c0 > 0 and any(abs(T['start'] - (d0 + timedelta(hours=float(24 * pf / c0)))) <= TOL
+                                    for pf in prefixes[(t['resource'], d0)] if pf <= c0)
+                if not ok:
+                    v('C08:zero-work-start-is-not-start-day-plus-a-booked-share', dict(task=i, start=T['start'], capacity=float(c0)))
                 continue
             first, last = min(d for _, d, _ in rws), max(d for _, d, _ in rws)
             rn = t['resource']
